@@ -424,7 +424,6 @@ class ValueWrapper(Term):
         if isinstance(value, (date, time)):
             return cls.get_formatted_value(value.isoformat(), ctx)
         if isinstance(value, str):
-            value = value.replace(quote_char, quote_char * 2)
             if ctx.dialect == Dialects.MYSQL:
                 # MySQL reads backslash escapes inside string literals
                 value = value.replace("\\", "\\\\")
